@@ -30,6 +30,7 @@ import (
 	"github.com/lianxiangcloud/linkchain/libs/crypto"
 	"github.com/lianxiangcloud/linkchain/libs/crypto/merkle"
 	"github.com/lianxiangcloud/linkchain/libs/log"
+	"github.com/lianxiangcloud/linkchain/libs/ser"
 	"github.com/lianxiangcloud/linkchain/types"
 
 	"verif/sim/kernel"
@@ -75,6 +76,7 @@ type rec struct {
 	Msg    cs.WALMessage
 	Height uint64 // markers
 	Frame  []byte // what the real encoder produces for this record (crc|len|payload)
+	Body   []byte // the codec's encoding of the timed message, computed apart from the encoder
 	Off    int    // offset of the frame in the concatenated log
 	End    int
 	// schedule
@@ -265,10 +267,10 @@ func (l *layout) restore() error {
 // ---------------------------------------------------------------- run
 
 type state struct {
-	c      *kernel.Ctx
-	recs   []*rec
-	frames [][]byte // payloads (frame without the 8 header bytes), for comparison with re-encodings
-	lay    *layout
+	c         *kernel.Ctx
+	recs      []*rec
+	frames    [][]byte // the written timed messages in the codec's encoding, for comparison with re-encodings
+	lay       *layout
 	markers   []*rec // in order of writing
 	written   map[uint64]bool
 	midRecord bool // some file starts inside a record
@@ -402,7 +404,7 @@ func run(c *kernel.Ctx) {
 		r.Off, r.End = off, off+len(r.Frame)
 		off = r.End
 		expect = append(expect, r.Frame...)
-		st.frames = append(st.frames, r.Frame[8:])
+		st.frames = append(st.frames, r.Body)
 		kinds[r.Kind]++
 		if r.Kind == "endheight" {
 			st.markers = append(st.markers, r)
@@ -660,6 +662,7 @@ func (st *state) writeAll(path string, limit int64) (rotations int, ok bool) {
 					return
 				}
 				r.Frame = buf.Bytes()
+				r.Body = ser.MustEncodeToBytes(&cs.TimedWALMessage{Time: time.Now(), Msg: r.Msg})
 				switch {
 				case r.Own && r.tickMid:
 					// WriteSync = Write + Group.Flush; the ticker may fire in between
